@@ -143,8 +143,17 @@ def tlc_ok(res, what):
 # ----------------------------------------------------------------------------- numbers
 
 def to_frac(q):
-    """[n,d] -> Fraction"""
+    """[n,d] -> Fraction;   [[n,d],[n,d]] (complex instance of the spec) -> Fraction if the imaginary part is 0, else (re, im)"""
+    if isinstance(q[0], (list, tuple)):
+        re, im = Fraction(int(q[0][0]), int(q[0][1])), Fraction(int(q[1][0]), int(q[1][1]))
+        return re if im == 0 else (re, im)
     return Fraction(int(q[0]), int(q[1]))
+
+
+def to_num(q):
+    """float or complex value of a spec scalar"""
+    f = to_frac(q)
+    return complex(float(f[0]), float(f[1])) if isinstance(f, tuple) else float(f)
 
 
 def frac_of_float(v, maxden=1 << 20, rtol=1e-9):
